@@ -759,6 +759,15 @@ CrashProbe(p) ==
   /\ "write_ok" \in DOMAIN p => p.write_ok
   \* C19: the image was opened by another release than the one that wrote it; both show the same
   /\ "peer_same" \in DOMAIN p => p.peer_same
+  \* C07: each persistent savepoint the recovered database lists was restored (on a copy of the image):
+  \* the result is exactly the state it captured
+  /\ "psp_restored" \in DOMAIN p =>
+        \E db \in CrashCandidates :
+          /\ ObsMatches(p.obs, db)
+          /\ \A i \in 1..Len(p.psp_restored) :
+               LET x == p.psp_restored[i] IN
+               /\ x.id \in DOMAIN db.psp /\ "tables" \in DOMAIN x.obs
+               /\ ObsTablesMatch(x.obs, hist[db.psp[x.id].idx].t)
   /\ UNCHANGED kvVars
 
 \* C12: a closed image of this history was altered (any bytes), opened, and check_integrity() was
